@@ -10,7 +10,8 @@ Definition K_eq_dec : forall a b : K, {a = b} + {a <> b} := list_eq_dec N.eq_dec
 Inductive fop :=
 | FWrite (i : nat) (k : K) (v : ver)
 | FUpload (i : nat)
-| FMerge (i : nat) (x : nat).     (* x = index of the snapshot in upload order (0 = first upload) *)
+| FMerge (i : nat) (x : nat)      (* x = index of the snapshot in upload order (0 = first upload) *)
+| FReset (i : nat).               (* instance i restarts under the same name with an EMPTIED LMDB *)
 
 Definition vle_b (a : option ver) (b : ver) : bool :=
   match a with None => true | Some x => ver_eqb x b || wins b x end.
@@ -28,6 +29,7 @@ Definition fapply (s : sys K) (o : fop) : option (sys K) :=
       | Some sn => Some (mkSys K (upd_inst K (st K s) i (fun k => ojoin2 (st K s i k) (snd sn k))) (snaps K s) (written K s))
       | None => None
       end
+  | FReset i => Some (mkSys K (upd_inst K (st K s) i (fun _ => None)) (snaps K s) (written K s))
   end.
 Fixpoint frun (s : sys K) (l : list fop) : option (sys K) :=
   match l with
@@ -58,8 +60,9 @@ Definition fexplain (c : fcase) :=
 
 Definition fbranch (c : fcase) : N :=
   (if existsb (fun o => match o with FMerge _ _ => true | _ => false end) (fc_ops c) then 1 else 0)
-  + (if existsb (fun o => match o with FWrite _ _ v => del v | _ => false end) (fc_ops c) then 2 else 0).
-Definition fbranches_all : list N := [3].
+  + (if existsb (fun o => match o with FWrite _ _ v => del v | _ => false end) (fc_ops c) then 2 else 0)
+  + (if existsb (fun o => match o with FReset _ => true | _ => false end) (fc_ops c) then 4 else 0).
+Definition fbranches_all : list N := [3; 7].
 
 Definition mismatches (l : list fcase) : list N := mism fcheck l.
 Definition coverage (l : list fcase) : list N := cover fbranch l.
